@@ -125,6 +125,112 @@ def copy_of(ctx, v, tag):
     return v
 
 
+def first_stage(rep, prog, tmo, failures):
+    """ConcatenationProof::aggregate_signatures up to the selection: which entries reach select_valid_signatures_for_k_indices and
+    whether anything but the selection can make the aggregation fail.  Registry lookup, selection and Merkle path generation are oracles."""
+    ctx = Ctx(prog)
+    I = ctx.I
+    Int, Bool = z3.IntSort(), z3.BoolSort()
+    REGISTERED = z3.Function("signer_index_is_registered", Int, Bool)
+    REG = z3.Function("registration_entry_at", Int, Int)
+    SELOK = z3.Bool("selection_succeeds")
+    calls = []
+
+    def models(I, st, caller, func, args, argtys, dest_ty):
+        f = MM.strip_std_paths(func)
+        if re.search(r"get_registration_entry_for_index$", f):
+            idx = MM.deref_all(I, st, args[1])
+            return MM.ret(st, EnumV("Result", z3.If(REGISTERED(idx), 0, 1), {0: (Abs("regparty", REG(idx)),), 1: (Opaque("anyhow::Error"),)}))
+        if re.search(r"select_valid_signatures_for_k_indices", f):
+            lst, _ = CM.seq_of(I, st, args[2])
+            st.trace = st.trace + (("select", tuple(lst.fields), None),)
+            return MM.ret(st, EnumV("Result", z3.If(SELOK, 0, 1), {0: (Agg("vec", None, tuple(lst.fields)),), 1: (Opaque("AggregationError"),)}))
+        if re.search(r"compute_aggregate_verification_key_for_concatenation", f):
+            return MM.ret(st, Opaque("avk"))
+        if re.search(r"to_merkle_tree(::<|$)|compute_merkle_tree_batch_path", f):
+            return MM.ret(st, Opaque("merkle"))
+        if re.match(r"^core::slice::<impl \[.*\]>::sort_unstable$", f.replace("std::slice", "core::slice")):
+            return MM.ret(st, MI.UNIT)
+        if re.search(r"without_snark_fields$", f):
+            return MM.ret(st, MM.deref_all(I, st, args[0]))
+        return None
+    I.models = [models] + I.models
+    f = prog.find_one(r"concatenation/proof\.rs.*>::aggregate_signatures$")
+    ss_fields = ctx.db.struct_fields("SingleSignature")
+    clerk_fields = ctx.db.struct_fields("ConcatenationClerk")
+    for n in (1, 2, 3):
+        idxs = [z3.Int("entry_%d.signer_index" % j) for j in range(n)]
+        sigs = []
+        for j in range(n):
+            vals = {"concatenation_signature": Abs("sigcontent", z3.Int("entry_%d.signature" % j)), "signer_index": idxs[j]}
+            sigs.append(Agg("adt", "SingleSignature", tuple(vals[nm] for nm, t in ss_fields)))
+        st = MI.State()
+        for x in idxs:
+            st.assume(z3.And(x >= 0, x < 2 ** 64))
+        fr = I.frame_counter + 1
+        I.frame_counter += 3
+        st.mem[(fr, 0)] = Agg("adt", "ConcatenationClerk", tuple(Opaque(t) for nm, t in clerk_fields))
+        st.mem[(fr, 1)] = Agg("vec", None, tuple(sigs))
+        st.mem[(fr, 2)] = Abs("bytes", z3.Int("msg"))
+        outs = I.call_fn(f, [Ref(fr, 0, ()), Ref(fr, 1, ()), Ref(fr, 2, ())], st)
+        bad_fail, bad_list = [], []
+        for o in outs:
+            if o.kind != "return":
+                raise Unencodable("aggregate_signatures: %s %s" % (o.kind, o.msg))
+            sel = [e for e in o.state.trace if e[0] == "select"]
+            d = o.value.discr
+            is_err = (d != 0) if z3.is_expr(d) else z3.BoolVal(d != 0)
+            if not sel:
+                # the aggregation ended before the selection was asked
+                bad_fail.append(z3.And(list(o.pc)))
+                continue
+            # the list handed to the selection: the registered entries, each with its own registration entry, in input order
+            lst = sel[0][1]
+            want = z3.BoolVal(True)
+            # build the expected list symbolically: position-wise comparison under the registration pattern of this path
+            got = []
+            for e in lst:
+                ev = MM.deref_all(I, o.state, e)
+                sg, rp = ev.fields[0], ev.fields[1]
+                got.append((sg.fields[[nm for nm, t in ss_fields].index("signer_index")], rp.term if isinstance(rp, Abs) else None))
+            reg_pattern = [REGISTERED(x) for x in idxs]
+            # number of entries = number of registered inputs, and the j-th kept entry is the j-th registered input with REG(its index)
+            count = z3.Sum([z3.If(rg, 1, 0) for rg in reg_pattern])
+            cond = [count == len(got)]
+            for pos, (gi, gr) in enumerate(got):
+                alts = []
+                for j in range(n):
+                    before = z3.Sum([z3.If(reg_pattern[t], 1, 0) for t in range(j)]) if j else z3.IntVal(0)
+                    alts.append(z3.And(reg_pattern[j], before == pos, gi == idxs[j], (gr == REG(idxs[j])) if gr is not None else z3.BoolVal(False)))
+                cond.append(z3.Or(alts))
+            bad_list.append(z3.And(list(o.pc) + [z3.Not(z3.And(cond))]))
+            bad_fail.append(z3.And(list(o.pc) + [is_err, SELOK]))
+        ob = rep.add(core.Obligation("c02_aggregate_fails_only_through_selection_n%d" % n, "smt",
+                                     "%d entries with arbitrary signer indices: ConcatenationProof::aggregate_signatures fails only if the selection fails — an entry naming an unregistered signer index (junk) does not abort the aggregation" % n,
+                                     {"paths": len(outs)}))
+        r = smt.check([z3.Or(bad_fail)] if bad_fail else [z3.BoolVal(False)], timeout_s=tmo)
+        ob.solver_s = r.seconds
+        ob.status = "discharged" if r.status == "unsat" else "failed" if r.status == "sat" else "inconclusive"
+        if r.status == "sat":
+            ob.counterexample = {"signer_indices": [r.model.eval(x, model_completion=True).as_long() for x in idxs],
+                                 "registered": [str(r.model.eval(REGISTERED(x), model_completion=True)) for x in idxs]}
+            failures.append(("aggregation-aborted-by-unregistered-signer-index", (n,), ob, r.model))
+        elif r.status != "unsat":
+            rep.inconcl("%s: %s" % (ob.name, r.reason))
+        ob = rep.add(core.Obligation("c02_selection_sees_every_registered_entry_n%d" % n, "smt",
+                                     "%d entries: the list handed to the selection is exactly the entries whose signer index is registered, each paired with the registration entry of its own index, in input order (nothing dropped, nothing mispaired)" % n))
+        r = smt.check([z3.Or(bad_list)] if bad_list else [z3.BoolVal(False)], timeout_s=tmo)
+        ob.solver_s = r.seconds
+        ob.status = "discharged" if r.status == "unsat" else "failed" if r.status == "sat" else "inconclusive"
+        if r.status == "sat":
+            ob.counterexample = {"signer_indices": [r.model.eval(x, model_completion=True).as_long() for x in idxs],
+                                 "registered": [str(r.model.eval(REGISTERED(x), model_completion=True)) for x in idxs]}
+            failures.append(("selection-input-incomplete", (n,), ob, r.model))
+        elif r.status != "unsat":
+            rep.inconcl("%s: %s" % (ob.name, r.reason))
+    rep.functions += sorted("%s -> %s" % (a, b) for a, b in I.calls_seen.items() if b.startswith("mir:"))
+
+
 def run(tier, seed):
     rep = core.Report("C02", tier, seed)
     rep.trusted_base = ["rustc nightly MIR", "mir2smt interpreter + container/map models with symbolic keys", "z3"]
@@ -264,6 +370,10 @@ def run(tier, seed):
         rep.functions += sorted("%s -> %s" % (a, b) for a, b in ctx.I.calls_seen.items())
     except Unencodable as e:
         rep.inconcl("unencodable: %s" % e)
+    try:
+        first_stage(rep, prog, tmo, failures)
+    except Unencodable as e:
+        rep.inconcl("unencodable (aggregate_signatures): %s" % e)
     # ---- replay ---------------------------------------------------------------------------------------------------------
     seen = {}
     kk = 0
